@@ -20,6 +20,10 @@ def check(run):
     # a chain with 1 MB blocks and 300 KB transactions: the pool exceeds the block budget, packBlock takes a prefix
     bigtx = '{"b1", "b2", "b3", "s4", "t1", "t2", "p1", "p2"}'
     plans.append(dict(num=40 if quick else 400, ops=20, maxb=8, txs=bigtx, budget=8, driver_args=["-replica", "-maxmb", "1"], batch=100))
+    # a chain whose award decays (1000 x (3/4)^(height div 2), rounded): every node must compute the award of a height
+    # the same way whatever it has computed before (producer after a long run, fresh replica, restarted node)
+    decay = {"AwardSched": "<- DecaySched"}
+    plans.append(dict(num=30 if quick else 300, ops=26, maxb=12, txs='{"t1", "t2", "t3", "p1", "p2"}', consts=decay, driver_args=["-replica"], batch=100))
     groups = xc.gen(run, plans, cfg="Gen_XState_miner.cfg")
     xc.replay_validate(run, groups)
     # engine level: the real Miner.mining round and the real ProcBlock pipeline on peers' chains
@@ -37,7 +41,8 @@ def check(run):
     run.cov["mined_with_budget_reached"] = sum(1 for b in behs for i, o in enumerate(b) if o["op"] == "mine" and len(big & set(o.get("txs") or [])) == 2)
     run.assumptions += ["the iteration orders of the pool (Go map iteration) are sampled, not enumerated: each mined block records the "
                         "order the real pool yielded", "the timer transaction is empty in these scenarios (no timer tasks); the block size "
-                        "limit is never reached", "the block's consensus fields are those of the single-miner fixture"]
+                        "limit is never reached", "the block's consensus fields are those of the single-miner fixture",
+                        "award schedules: constant 1, and 1000 x (3/4)^(height div 2) (exact in float64, so the specification's rational rounding equals CalcAward's)"]
     run.finish(require={"mined_blocks": (len(mined), 40), "mined_with_3_or_more_txs": (sum(1 for o in mined if len(o.get("txs") or []) >= 3), 10),
                         "replicas": (run.cov.get("real_replicas", 0), 40),
                         "mined_with_budget_reached": (run.cov.get("mined_with_budget_reached", 0), 3),
